@@ -306,13 +306,15 @@ def oracle_slm(inp):
     want = (np.ones(shape) if A is None else np.broadcast_to(A, shape)) * np.exp(1j * dig.astype(float) * r / K)
     e = np.abs(pat - want) - tol * (1 + Aabs) * (1 + r)
     out.append(('pattern_phase_is_level', bool(np.all(e <= 0)), 'A exp(i level r / 2^bits)', _worst(e, inp['vals'], pat)))
-    slack = 16 * eps * K
+    slack = 16 * eps * K                  # rounding of the scaled phase in level units; the remainder amplifies it by |phase| / r
     if slack < 0.25 and bad.size == 0:
         ph = np.asarray(nw.calculate_phase(f)).reshape(-1); rr = float(np.float32(r)) if dt == 'complex64' else r
         lv = dig.reshape(-1); wrong = None
         for i in range(lv.size):
+            sl = slack * (1 + abs(float(ph[i])) / r)
+            if sl >= 0.25: continue
             s = exact_scaled(ph[i], rr, bits)
-            if not level_matches(int(lv[i]), s, bits, slack):
+            if not level_matches(int(lv[i]), s, bits, sl):
                 wrong = {'index': i, 'sample': inp['vals'][i], 'phase': float(ph[i]), 'level': int(lv[i]), 'scaled_phase': float(s)}; break
         out.append(('level_is_floor_of_scaled_phase', wrong is None, 'floor((phase mod r) / r * 2^bits)', wrong))
     return out
@@ -346,8 +348,10 @@ def oracle_torch_slm(inp):
         wrong = None
         for i in range(lev.size):
             if lev[i] == dig[i]: continue
+            sl = slack * (1 + abs(float(ph[i])) / r)
+            if sl >= 0.25: continue
             s = exact_scaled(ph[i], rr, bits)
-            if not (level_matches(int(lev[i]), s, bits, slack) and level_matches(int(dig[i]), s, bits, slack)):
+            if not (level_matches(int(lev[i]), s, bits, sl) and level_matches(int(dig[i]), s, bits, sl)):
                 wrong = {'index': i, 'sample': inp['vals'][i], 'torch': int(lev[i]), 'numpy': int(dig[i])}; break
         out.append(('numpy_torch_levels_agree', wrong is None, 'same levels', wrong))
     return out
@@ -551,11 +555,11 @@ def run(ctx):
         ctx.sample({'traced_definition': 'n_slm_level', 'coq': __import__('tracer.shim').shim.coq(g.by_name['n_slm_level'][1])[:500]})
     # B2
     try:
-        float_model_correspondence(ctx, 60 if ctx.thorough else 14)
+        float_model_correspondence(ctx, 300 if ctx.thorough else 25)
     except Exception as e:
         ctx.obligation('float-model-correspondence', False, repr(e))
     # direct oracles
-    cases = gen_cases(ctx, 1500 if ctx.thorough else 150)
+    cases = gen_cases(ctx, 12000 if ctx.thorough else 300)
     for name, inp in cases:
         bad, res = apply_oracle(ctx, name, inp)
         key = (name, inp.get('api'), inp['dtype'], json.dumps(inp.get('vals', inp.get('xs'))), inp.get('r'), inp.get('bits'))
